@@ -55,9 +55,12 @@ pub static DUMPER_TID: std::sync::atomic::AtomicI32 = std::sync::atomic::AtomicI
 
 impl Target {
     pub fn spawn(args: &[String]) -> Result<Target, String> {
-        let exe = format!("{}/targets/vtarget", build_dir());
+        // `--nopie` (consumed here): the position-dependent build of the same program
+        let nopie = args.iter().any(|a| a == "--nopie");
+        let args: Vec<String> = args.iter().filter(|a| *a != "--nopie").cloned().collect();
+        let exe = format!("{}/targets/vtarget{}", build_dir(), if nopie { "_nopie" } else { "" });
         let mut child = Command::new(&exe)
-            .args(args)
+            .args(&args)
             // the kernel rewrites the rseq area (in the TCB at the top of each thread stack) whenever a
             // thread migrates; switching registration off keeps stopped threads' memory still
             .env("GLIBC_TUNABLES", "glibc.pthread.rseq=0")
@@ -128,8 +131,15 @@ impl Target {
         let deadline = std::time::Instant::now() + std::time::Duration::from_secs(2);
         loop {
             let all = self.threads.iter().filter(|t| !t.spin).all(|t| {
+                // blocked in read() *and* asleep: a thread that an earlier request stopped inside that call still shows
+                // the call while it is stopped, and while it is on its way back into it (its instruction pointer is then
+                // at the syscall instruction, not behind it)
+                let asleep = match std::fs::read_to_string(format!("/proc/{}/task/{}/stat", self.pid, t.tid)) {
+                    Ok(s) => s.rsplit(") ").next().map(|r| r.starts_with('S')).unwrap_or(false),
+                    Err(_) => true, // gone
+                };
                 match std::fs::read_to_string(format!("/proc/{}/task/{}/syscall", self.pid, t.tid)) {
-                    Ok(s) => s.starts_with("0 "),
+                    Ok(s) => s.starts_with("0 ") && asleep,
                     Err(_) => true, // gone
                 }
             });
@@ -269,7 +279,7 @@ impl DumpCfg {
     pub fn field(&self) -> String {
         let mut s = format!("blamed:{}", self.blamed);
         if let Some(c) = &self.crash {
-            s.push_str(&format!(",crash:{}:{}:{}:{}", c.tid, c.signo, c.code, c.addr));
+            s.push_str(&format!(",crash:{}:{}:{}:{}", c.tid, c.signo, c.code as u32, c.addr)); // the code as the 32-bit pattern the record carries
             let g: Vec<String> = c.gregs.iter().map(|v| (*v as u64).to_string()).collect();
             s.push_str(&format!(",cg:{}:{}", g.join("."), c.fp_seed));
         }
